@@ -320,6 +320,7 @@ FramesT == IsSeq /\ Same
 FramesA == FramesT /\ Log("Frames", <<>>,
                  [six |-> SixFrames(inp.code, inp.s),
                   rc  |-> Rc(inp.s),
+                  rev |-> Rev(inp.s),           \* = complement of the reverse complement
                   mayreject |-> [k \in 1..3 |-> FrameMayReject(inp.s, k - 1)]])
 
 (* seq.get_translation(gc, incomplete_ok, include_stop, trim_stop) and the collection / app forms *)
@@ -364,7 +365,13 @@ EncodeA == EncodeT /\ Log("Encode", <<>>, Encode(inp.mt, inp.set))
 
 (* moltype.complement(str), moltype.rc(str), Sequence.complement(), Sequence.rc() *)
 RcStrT == inp.kind = "str" /\ Valid(inp) /\ Same
-RcStrA == RcStrT /\ Log("RcStr", <<>>, [comp |-> CompStr(inp.mt, inp.s), rc |-> RcStr(inp.mt, inp.s)])
+(* and the two-step forms x.rc().complement(), x[::-1].complement(), x.complement().rc(), x.rc().rc() *)
+RcStrA == RcStrT /\ Log("RcStr", <<>>,
+              [comp    |-> CompStr(inp.mt, inp.s),
+               rc      |-> RcStr(inp.mt, inp.s),
+               rc_comp |-> CompStr(inp.mt, RcStr(inp.mt, inp.s)),
+               comp_rc |-> RcStr(inp.mt, CompStr(inp.mt, inp.s)),
+               rc_rc   |-> RcStr(inp.mt, RcStr(inp.mt, inp.s))])
 
 ProtSymT == inp.kind = "psym" /\ Same
 ProtSymA == ProtSymT /\ Log("ProtSym", <<>>, ProtResolve(inp.s[1]))
@@ -419,6 +426,12 @@ RcInvolution ==
     /\ inp.kind = "str" => /\ RcStr(inp.mt, RcStr(inp.mt, inp.s)) = inp.s
                            /\ CompStr(inp.mt, CompStr(inp.mt, inp.s)) = inp.s
                            /\ RcStr(inp.mt, inp.s) = Rev(CompStr(inp.mt, inp.s))
+
+(* complementing a reverse complement (in either order) only reverses *)
+ComplementRcLaw ==
+    /\ inp.kind = "str" => /\ CompStr(inp.mt, RcStr(inp.mt, inp.s)) = Rev(inp.s)
+                           /\ RcStr(inp.mt, CompStr(inp.mt, inp.s)) = Rev(inp.s)
+    /\ IsSeq => [i \in 1..Len(inp.s) |-> CompBase(Rc(inp.s)[i])] = Rev(inp.s)
 
 (* complement is an involution on symbols, agrees with the conventional table and   *)
 (* with base-wise complement on canonical strings                                    *)
